@@ -224,6 +224,9 @@ func runC12(c *Ctx) {
 	c.Rule("C12-D7", "nothing of a refused socket remains (F44): in Namespace.add every path on which runMiddlewares returned an error passes leaveAll() before it returns", 1)
 	refusedSocketLeavesNothing(c, "C12-D7")
 
+	c.Rule("C12-D8", "the event middlewares see each event once (F63, known finding): the ServerSocket.Use chain is not run inside the per-handler call", 1)
+	eventMiddlewaresOncePerPacket(c, "C12-D8")
+
 	c.Rule("C12-D6", "every registered middleware is in the chain: Namespace.Use and serverSocket.Use append their argument on every path that returns normally — no early return before the append (a 'skip duplicates' "+
 		"test compares function identity by code pointer, so two closures of one literal look equal and the second gate is silently dropped)", 2)
 	for _, name := range []string{"Namespace.Use", "serverSocket.Use"} {
